@@ -490,6 +490,11 @@ func (c *candidateBase) TypePreference() uint16 {
 			tcpPriorityOffset = c.agent().tcpPriorityOffset
 		}
 
+		// Saturate at 0: an offset above the base preference must not wrap around.
+		if tcpPriorityOffset >= pref {
+			return 0
+		}
+
 		pref -= tcpPriorityOffset
 	}
 
